@@ -21,6 +21,19 @@ def keyMassOf (T : Table) (k : Key) : Int :=
     | some i => i.mass
     | none => 0
 
+/-- the *variant* of an element, as the harness builds it (`third_table`): same isotopes, the heaviest other isotope taken
+    as the most abundant one.  The real code holds it to be another element than the stock one (`Element::eq` compares
+    `most_abundant_isotope`); the model names it by another symbol, `Sym^3`, which no formula string can spell. -/
+def variantOf (e : Elem) : Option Elem :=
+  let others := e.isos.filter (fun i => i.key != e.mostIso)
+  match others.foldl (fun (acc : Option Iso) i => match acc with
+      | none => some i
+      | some a => if a.key < i.key then some i else some a) none with
+  | some i => some { e with tkey := e.tkey ++ [94, 51], sym := e.sym ++ [94, 51], mostIso := i.key, mostMass := i.mass }
+  | none => none
+
+def drvTable : Table := Gen.table ++ Gen.table.filterMap variantOf
+
 def parseKey (s : String) : Option Key :=
   match s.splitOn ":" with
   | [a, b] => b.toNat?.map (fun n => (strSym a, n))
@@ -102,7 +115,7 @@ def dedupKeys (l : List Key) : List Key := l.foldl (fun acc k => if acc.contains
 def runCompCase (line : String) : String :=
   match fields line with
   | [_, nregs, opsStr] =>
-    let T := Gen.table
+    let T := drvTable
     let m := keyMassOf T
     let n := nregs.toNat?.getD 4
     let opStrs := (opsStr.splitOn ";").filter (· ≠ "")
